@@ -88,6 +88,14 @@ Definition scatter (x : tok) : option (list tok * (string * N)) :=
   | Tok _ _ => None
   end.
 
+(* ScatterStep.run fed the tokens xs and then TerminationToken(st): terminate(self._get_status(st)).  An output port
+   is empty iff nothing was put on it: the element port iff no list had an element (the size port is then the only
+   one with tokens, or xs = [] and both are empty).  None: some input is not a list token (the step raises). *)
+Definition scatter_run_status (xs : list tok) (st : status) : option status :=
+  if forallb (fun x => match x with ListTok _ _ => true | Tok _ _ => false end) xs
+  then Some (get_status st (forallb (fun x => match x with ListTok _ [] => true | _ => false end) xs))
+  else None.
+
 (* ---- sorted(token_map[key], key=cmp_to_key(lambda x, y: compare_tags(x.tag, y.tag))) ----
    a stable sort; modelled as stable insertion sort (for lists whose tags are pairwise distinct
    every correct sort returns the same list: Proofs.sorted_perm_unique) *)
